@@ -93,6 +93,17 @@ def _sign_test(c, LN, ty, uty, max_pos, max_neg):
     return c
 
 
+def _same_on(got, want, hole, byteset_):
+    """the two u8 terms over one byte have the same value for every byte the path admits (any spelling of the digit's value:
+    `b - b'0'`, `b ^ b'0'`, `b & 0x0F` ... - evaluated exactly on each admitted byte)"""
+    if not byteset_:
+        return False
+    try:
+        return all(byteset.ev(got, hole, v) == byteset.ev(want, hole, v) for v in byteset_)
+    except (byteset.Opaque, TypeError, KeyError, IndexError):
+        return False
+
+
 def integer(ctx, prog, F, b, ty):
     cfg = prog.config
     key = "%s|parse_%s" % (cfg, ty)
@@ -162,7 +173,7 @@ def integer(ctx, prog, F, b, ty):
             s |= x
             want_init = ("bin", "Sub", hole, ("int", 48, "u8"))
             got_init = strip_casts(init.get(N, ("?",)))
-            if got_init != want_init:
+            if got_init != want_init and not _same_on(got_init, want_init, hole, x):
                 ctx.violation("REC", key + "|first", "first digit value is %s, expected byte - b'0'" % show(init.get(N, ("?",))), b.file())
         got = byteset.to_ranges(s)
         if got != DIGITS:
@@ -178,7 +189,7 @@ def integer(ctx, prog, F, b, ty):
         got = p.env.get(N)
         digit = got[3] if got and got[0] == "bin" else ("?",)
         ok = got and got[0] == "bin" and got[1] == "Add" and got[2] == ("bin", "Mul", LN, ("int", 10, uty)) \
-            and strip_casts(digit) == ("bin", "Sub", hC, ("int", 48, "u8"))
+            and (strip_casts(digit) == ("bin", "Sub", hC, ("int", 48, "u8")) or _same_on(strip_casts(digit), ("bin", "Sub", hC, ("int", 48, "u8")), hC, x))
         if not ok:
             ctx.violation("REC", key + "|step", "accumulator update is %s, expected num*10 + (byte - b'0') in %s" % (show(got) if got else "?", uty), b.file())
         f_mul, f_add = ("ovf", "Mul", LN, ("int", 10, uty)), ("ovf", "Add", ("bin", "Mul", LN, ("int", 10, uty)), digit)
